@@ -202,14 +202,58 @@ Proof.
   split; assumption.
 Qed.
 
-(* what one operation can do to the file: nothing, delete it, create it with the header (or, after a
-   clean_up, with the parameters alone), or append members in ONE ZipFile session.  These are the
-   "file-system commits" of the crash theorem below: at most one per operation. *)
+(* an operation that raises leaves object and file exactly as they were: in ANY state, for every
+   operation (also after clean_up, also on a reloaded object) *)
+Theorem raising_operation_changes_nothing :
+  forall (w : world) (o : op) e, snd (step w o) = OErr e -> fst (step w o) = w.
+Proof.
+  intros [fs h] o e. destruct o; cbn [step];
+    repeat match goal with
+           | |- context [if ?c then _ else _] => destruct c
+           | |- context [match fs with _ => _ end] => destruct fs
+           | |- context [match mem h with _ => _ end] => destruct (mem h)
+           | |- context [match get_params ?a with _ => _ end] => destruct (get_params a)
+           | |- context [match load_img ?b with _ => _ end] => destruct (load_img b)
+           | |- context [match mem_neg ?a ?b with _ => _ end] => destruct (mem_neg a b)
+           | |- context [match getitem ?a ?b with _ => _ end] => destruct (getitem a b)
+           end; cbn [fst snd of_res of_seq]; intros H; try discriminate H; reflexivity.
+Qed.
+
+(* len is the number of adds that returned without raising - for EVERY operation sequence on one
+   object (clean_up included; only the replacement of the object by load() is excluded) *)
+Theorem len_counts_accepted_adds :
+  forall (fs0 : option (archive item par)) ml (ops : list op), no_load ops = true ->
+  len (snd (exec fs0 ml ops)) = accepted ops (snd (run (init fs0 ml) ops)).
+Proof.
+  intros fs0 ml ops. unfold exec.
+  assert (G : forall (ops : list op) (w : world), no_load ops = true ->
+              len (snd (fst (run w ops))) = len (snd w) + accepted ops (snd (run w ops))).
+  { induction ops0 as [|o r IH]; intros w Hn; [cbn; lia|].
+    cbn [no_load forallb] in Hn. apply andb_true_iff in Hn. destruct Hn as [Ho Hr].
+    cbn [run]. destruct (step w o) as [w1 x] eqn:E. specialize (IH w1 Hr).
+    destruct (run w1 r) as [w2 xs]. cbn [fst snd] in *. rewrite IH.
+    assert (S1 : len (snd w1) = len (snd w) + match o, x with Add _, ODone => 1 | _, _ => 0 end).
+    { destruct w as [fs h]. destruct o; cbn [step] in E; try discriminate Ho;
+        repeat match type of E with
+               | context [if ?c then _ else _] => destruct c
+               | context [match fs with _ => _ end] => destruct fs
+               | context [match mem h with _ => _ end] => destruct (mem h)
+               | context [match get_params ?a with _ => _ end] => destruct (get_params a)
+               | context [match load_img ?b with _ => _ end] => destruct (load_img b)
+               end; inversion E; subst; cbn [snd len]; try lia;
+        match goal with |- context [match ?y with _ => _ end] => destruct y end; lia. }
+    rewrite S1. destruct o; cbn [accepted]; try lia. destruct x; lia. }
+  intros Hn. rewrite (G ops (init fs0 ml) Hn). reflexivity.
+Qed.
+
+(* what one operation does to the archive AS MODELLED: nothing, delete it, create it with the
+   header, or append members.  (That the appended
+   members are written in one ZipFile session is how Model.step was written from the code, not
+   something this statement can express; it is a case split over `step`.) *)
 Theorem one_commit_per_operation :
   forall (w : world) (o : op),
   let fs' := fst (fst (step w o)) in
   fs' = fst w \/ fs' = None \/ fs' = Some [MHeader] \/
-  (fst w = None /\ exists p, fs' = Some [MParams p]) \/
   (exists a l, fst w = Some a /\ fs' = Some (a ++ l)).
 Proof.
   intros [fs h] o. cbn [fst].
@@ -222,8 +266,7 @@ Proof.
            | |- context [match load_img ?b with _ => _ end] => destruct (load_img b)
            end; cbn [fst snd];
     first [ now left | now (right; left) | now (right; right; left)
-          | (right; right; right; left; split; [reflexivity|eexists; reflexivity])
-          | (right; right; right; right; eexists; eexists; split; reflexivity) ].
+          | (right; right; right; eexists; eexists; split; reflexivity) ].
 Qed.
 
 (* a previous archive under the same name is never read or modified before open(); once opened, the
@@ -290,16 +333,18 @@ Proof.
     unfold opened in Ho. destruct (aopen (spec ml ops1)); [reflexivity|discriminate].
 Qed.
 
-(* the process stops after ANY number of operations of a proper life (every archive update is one
-   atomic commit, so these are the states between commits; an update interrupted half-way leaves a
-   file that is not a zip archive = IGarbage; no file = INone).  Before open() the disk is as the
+(* PARTIAL with respect to "stops at any point": the theorem covers a stop BETWEEN two operations of
+   a proper life.  A stop INSIDE an operation is not modelled: that one ZipFile session is all-or-
+   unreadable (the central directory is rewritten last) is an ASSUMPTION, probed on the real zipfile
+   by harness/c20.py (images after every low-level write, torn and truncated copies) and not proved;
+   under it the images are exactly the states between operations, IGarbage (-> ValueError, by
+   definition of load_img, see misuse_rejected) or no file.  Before open() the disk is as the
    previous life left it (no file: FileNotFoundError).  After open() `load` returns a trajectory
    whose entries are a PREFIX of what was pushed, with the stored parameters - never reordered,
    duplicated or foreign entries; if the trajectory had been closed the prefix is everything. *)
-Theorem crash_prefix :
+Theorem crash_prefix_partial :
   forall (fs0 : option (archive item par)) ml (ops1 ops2 : list op), 1 <= ml -> proper (ops1 ++ ops2) = true ->
   let w1 := exec fs0 ml ops1 in
-  load_img (@IGarbage item par) = Err EValue /\ load_img (@INone item par) = Err EFileNotFound /\
   match aopen (spec ml ops1) with
   | None => fst w1 = fs0 /\ (fs0 = None -> load_img (img_of (fst w1)) = Err EFileNotFound)
   | Some _ =>
@@ -310,7 +355,7 @@ Theorem crash_prefix :
                    snd (step (fst w1, h') GetParams) = snd (step w1 GetParams)
   end.
 Proof.
-  intros fs0 ml ops1 ops2 Hml Hp w1. split; [reflexivity|]. split; [reflexivity|].
+  intros fs0 ml ops1 ops2 Hml Hp w1.
   pose proof (@crash_load _ _ fs0 ml ops1 ops2 Hml Hp) as H. fold w1 in H. cbv zeta in H.
   destruct (aopen (spec ml ops1)); [exact H|].
   split; [exact H|]. intros ->. rewrite H. reflexivity.
@@ -348,6 +393,33 @@ Example stale_archive_is_replaced :
   fst (exec stale 2 [Add 0]) = stale /\
   fst (exec stale 2 [Add 0; Open; Add 1; Add 2; Close]) = Some [MHeader; MCoords 0 0; MCoords 1 1; MCoords 2 2].
 Proof. split; reflexivity. Qed.
+
+(* Regression examples for the two defects repaired by /repo commits 18d0995 / 975c2b4 (a life in
+   which clean_up() removed the file under the live object): the add that cannot spill raises and
+   is not counted; save_opt_params does not recreate the file, so no index can return another
+   entry.  harness/c20.py replays both on the real class on every run. *)
+Example failed_spill_is_not_counted :
+  let ops : list (op nat nat) := [Open; Add 0; CleanUp; Add 1] in
+  snd (run (init None 1) ops) = [ODone; ODone; ODone; OErr EFileNotFound] /\
+  len (snd (exec None 1 ops)) = 1 /\ getitem (exec None 1 ops) 0 = Ok (Some 0) /\
+  getitem (exec None 1 ops) 1 = Err EIndex.
+Proof. repeat split. Qed.
+
+Example removed_file_is_not_recreated :
+  let ops : list (op nat nat) := [Open; Add 0; Add 1; CleanUp; SaveParams 0; Add 2] in
+  snd (run (init None 1) ops) = [ODone; ODone; ODone; ODone; OErr EFileNotFound; OErr EFileNotFound] /\
+  fst (exec None 1 ops) = None /\ len (snd (exec None 1 ops)) = 2 /\
+  getitem (exec None 1 ops) 1 = Ok (Some 1) /\ getitem (exec None 1 ops) 0 = Err EFileNotFound.
+Proof. repeat split. Qed.
+
+(* FALSE as an unconditional statement, TRUE as documented by the class ("otherwise old coordinates
+   more than the maximum number are lost"): without a file an entry that left the memory window is
+   answered with None, not with the pushed entry (getitem_without_file).  The retrieval theorems
+   above therefore carry the premise `opened`. *)
+Theorem every_index_without_file_refuted :
+  exists (ops : list (op nat nat)),
+    proper ops = true /\ pushed 1 ops = [0; 1] /\ getitem (exec None 1 ops) 0 = Ok None.
+Proof. exists [Add 0; Add 1]. repeat split. Qed.
 
 (* non-vacuity: a proper life that is opened, spills, is closed, and reloads *)
 Example nonvacuous :
